@@ -117,8 +117,8 @@ pub fn run_one(engine: &str, seed: u64, ctx: &mut Ctx) -> OneResult {
             }
         }
         "envelope-op" => {
-            let n = ctx.names.len() as u64;
-            let instr = ctx.names[(ctx.cur_index % n) as usize].clone();
+            let subjects = envelope::op_subjects(&ctx.names);
+            let instr = subjects[(ctx.cur_index % subjects.len() as u64) as usize].clone();
             let sc = envelope::generate_op(seed, &instr, ctx.tier == "thorough");
             let r = envelope::execute_op(&sc, &mut ctx.plain);
             let scv = if r.violations.is_empty() { Value::Null } else { serde_json::to_value(&sc).unwrap() };
@@ -264,8 +264,8 @@ pub fn scenario_of(engine: &str, seed: u64, ctx: &mut Ctx) -> Value {
         "queues" => serde_json::to_value(queues::generate(seed, &ctx.names, ctx.tier == "thorough")).unwrap(),
         "queues-enum" => serde_json::to_value(queues::enumerate(ctx.cur_index)).unwrap(),
         "envelope-op" => {
-            let n = ctx.names.len() as u64;
-            let instr = ctx.names[(ctx.cur_index % n) as usize].clone();
+            let subjects = envelope::op_subjects(&ctx.names);
+            let instr = subjects[(ctx.cur_index % subjects.len() as u64) as usize].clone();
             serde_json::to_value(envelope::generate_op(seed, &instr, ctx.tier == "thorough")).unwrap()
         }
         "envelope-growth" => serde_json::to_value(envelope::generate_growth(seed, &ctx.names)).unwrap(),
